@@ -238,7 +238,15 @@ def run(chk: core.Check):
                 ok, clause = got["e"] == w, "parse_stack_order"
                 want = w
             elif c["side"] == "write":
-                ok, clause = got["text"] == want["text"], "unparse_stack_order"
+                # expected text: the effective stack of the specification applied by hand, then the real writer
+                # (so that only the ORDER and CONTENT of the stack are judged here, not the writer's layout: C06)
+                M = bib.model
+                lib = bib.Library([M.Entry("article", "k", [M.Field("title", "x")])])
+                for m in build(bib, e["stack"], BlockProbe, LibProbe, "list"):
+                    lib = m.transform(lib)
+                byhand = bib.writer.write(lib)
+                ok, clause = got["text"] == byhand, "unparse_stack_order"
+                want = {"text": byhand, "stack": e["stack"], "text_by_Writer_spec": want["text"]}
             else:
                 ok, clause = got["bs"] == list(want["bs"]), "splice"
         if not ok:
